@@ -20,7 +20,7 @@ RULE = ("schedule = number of concurrent calls (1-3) x delivery order of their r
         "stream x loss (none / EOF / connection reset) after a chosen byte (before any byte, inside the id, at the id-length "
         "boundary, inside the length, after the header, inside the body, exactly between frames) x optional foreign frame / "
         "duplicate response x optional call after the loss x optional close() (acknowledged) with calls pending x loss "
-        "before the calls are made; non-trivial = >=2 calls answered out of request order, or a loss / close with a call "
+        "before the calls are made x response arriving while the request is still being drained (paused transport); non-trivial = >=2 calls answered out of request order, or a loss / close with a call "
         "pending; distinct by schedule")
 ASSUMPTIONS = [
     "oracle: a caller whose complete response frame was fed before the loss returns exactly the response built for its own request; "
@@ -55,13 +55,24 @@ class FakeWriter:
         self.buf = bytearray()
         self.closed = False
         self.cond = threading.Condition()
+        self.on_frame = None            # callback(id, message) run on the loop thread as soon as a request frame is complete
+        self.seen = 0
+        self.slow_drain = False         # a paused transport: drain() really suspends
 
     def write(self, data):
         with self.cond:
             self.buf += data
             self.cond.notify_all()
+        if self.on_frame is not None:
+            fr = self.frames()
+            while self.seen < len(fr):
+                self.on_frame(*fr[self.seen])
+                self.seen += 1
 
     async def drain(self):
+        if self.slow_drain:
+            await asyncio.sleep(0)
+            await asyncio.sleep(0)
         return None
 
     def close(self):
@@ -185,8 +196,26 @@ def run_schedule(s):
         return asyncio.StreamReader()
     reader = io.run(mk())
     writer = FakeWriter()
+    # remember every future created on the io loop during the case, so that whoever still waits can be released afterwards
+    created = []
+    orig_create_future = io.loop.create_future
+
+    def recording_create_future():
+        f = orig_create_future()
+        created.append(f)
+        return f
+    io.loop.create_future = recording_create_future
     nc = NetworkClient(io.loop, kl.loop, klong, make_provider(reader, writer))
     nc.run_client()
+    instant = bool(s.get('instant'))
+    if instant:
+        # a fast peer on a paused transport: the response is in the reader before drain() returns
+        writer.slow_drain = True
+
+        def reply(mid, msg):
+            if isinstance(msg, int) and 1000 <= msg < 1100:
+                reader.feed_data(encode_message(mid, 200 + (msg - 1000)))
+        writer.on_frame = reply
     problems = []
 
     def lose(kind):
@@ -221,7 +250,9 @@ def run_schedule(s):
     delivered = set()
     lost = bool(s.get('early_loss'))
     closer = None
-    if not s.get('early_loss'):
+    if instant:
+        delivered = set(range(n))
+    elif not s.get('early_loss'):
         # the response stream in delivery order
         frames = []
         for j in s['order']:
@@ -293,10 +324,13 @@ def run_schedule(s):
     while time.time() < t_end and any(c.is_alive() for c in everyone):
         time.sleep(0.002)
         # once the listener has exited nothing can complete a waiting call any more: 0.5 s of grace is then enough
-        if nc._run_exit_event.is_set():
+        if nc._run_exit_event.is_set() or (not lost and len(reader._buffer) == 0):
+            # ... and when nothing was lost and every fed byte has been consumed, nothing more will arrive either
             confirmed_at = confirmed_at or time.time()
             if time.time() - confirmed_at > 0.5:
                 break
+        else:
+            confirmed_at = None
     settle(io)
     verdicts = []
     for i, c in enumerate(callers):
@@ -323,10 +357,11 @@ def run_schedule(s):
     info = {"pending_after": len(nc.pending_responses), "listener_exited": nc._run_exit_event.is_set()}
     # tear down: release whoever still waits (after the verdict), end the listener if it still runs
     def release():
-        for fut in list(nc.pending_responses.values()):
+        for fut in list(nc.pending_responses.values()) + created:
             if not fut.done():
                 fut.set_exception(RuntimeError("harness teardown"))
     io.loop.call_soon_threadsafe(release)
+    io.loop.create_future = orig_create_future
     if not nc._run_exit_event.is_set():
         nc.running = False
         try:
@@ -345,7 +380,7 @@ def describe(s):
 def nontrivial(s):
     n = s['n']
     out_of_order = n >= 2 and list(s['order']) != sorted(s['order'])
-    return out_of_order or bool(s.get('loss')) or s.get('close') is not None or bool(s.get('early_loss'))
+    return out_of_order or bool(s.get('loss')) or s.get('close') is not None or bool(s.get('early_loss')) or bool(s.get('instant'))
 
 
 def judge(stats, report, s):
@@ -358,6 +393,8 @@ def judge(stats, report, s):
         classes += ['loss:' + s['loss'][0], 'loss at:' + str(s['loss'][2])]
     if s.get('early_loss'):
         classes.append('loss before the calls')
+    if s.get('instant'):
+        classes.append('response arrives while the request is being drained')
     if s.get('extra'):
         classes.append('extra:' + s['extra'])
     if s.get('after_call'):
@@ -371,7 +408,7 @@ def judge(stats, report, s):
     for kind, who, what in verdicts:
         if kind == 'harness':
             raise core.HarnessError(f"schedule {s}: {what}")
-        where = 'early' if s.get('early_loss') else ('loss:%s@%s' % (s['loss'][0], s['loss'][2]) if s.get('loss') else ('close' if s.get('close') is not None else 'no-loss'))
+        where = 'instant-reply' if s.get('instant') else 'early' if s.get('early_loss') else ('loss:%s@%s' % (s['loss'][0], s['loss'][2]) if s.get('loss') else ('close' if s.get('close') is not None else 'no-loss'))
         report(f'{kind}/{where}', {"schedule": describe(s)}, expected='own response or an error, promptly', observed=what)
         return
 
@@ -405,6 +442,7 @@ def exhaustive_schedules():
                 out.append(dict(n=n, order=order, cuts=(), extra=extra, loss=('eof', n - 1, 18)))
         for kind in ('eof', 'reset'):
             out.append(dict(n=n, order=tuple(range(n)), cuts=(), early_loss=kind, after_call=True))
+        out.append(dict(n=n, order=tuple(range(n)), cuts=(), instant=True))
     return out
 
 
@@ -432,7 +470,9 @@ def schedules(draw):
     total = 25 * (n + 1)
     cuts = tuple(sorted(set(draw(st.lists(st.integers(1, total), max_size=4)))))
     s = dict(n=n, order=order, cuts=cuts)
-    mode = draw(st.sampled_from(['none', 'loss', 'loss', 'close', 'early']))
+    mode = draw(st.sampled_from(['none', 'loss', 'loss', 'close', 'early', 'instant']))
+    if mode == 'instant':
+        return dict(n=n, order=tuple(range(n)), cuts=(), instant=True)
     if mode == 'loss':
         s['loss'] = (draw(st.sampled_from(['eof', 'reset'])), draw(st.integers(0, n)), draw(st.one_of(st.integers(0, 24), st.just('end'))))
         s['after_call'] = draw(st.booleans())
